@@ -124,7 +124,7 @@ async def _run(loop, case, ctx_info, tmp):
         ukw[f"{throttle[1]}_speed_limit" + ("_per_connection" if throttle[0] == "userconn" else "")] = throttle[2]
     users = [aioftp.User(base_path=tmp, **ukw)] if backend != "mem" else [aioftp.User(**ukw)]
     # behaviour-neutral server options (pool, limits far above the traffic, long timeouts) vary with the case
-    neutral = [{}, {}, {"data_ports": [5001, 5002, 5003, 5004]}, {"maximum_connections": 3}, {"socket_timeout": 900, "idle_timeout": 900},
+    neutral = [{}, {}, {"data_ports": [5001, 5002, 5003, 5004]}, {"maximum_connections": 3}, {"socket_timeout": 10 ** 6, "idle_timeout": 10 ** 6},
                {"path_timeout": 900}, {"ipv4_pasv_forced_response_address": "127.0.0.1"}][(len(tape) + block) % 7]
     for k_, v_ in neutral.items():
         skw.setdefault(k_, v_)
